@@ -27,14 +27,17 @@ class ResHandle(Handle):
     def __init__(self, value):
         self.value = value
         self.loads = 0
+        self.last = None
 
     def load(self):
+        # a NEW object per load: whoever bypasses the handle's cache ends up with a different object
         self.loads += 1
-        return self.value
+        self.last = ('resource', self.value, object())
+        return self.last
 
 
-R1 = ('resource', 1)
-R2 = ('resource', 2)
+R1 = 1
+R2 = 2
 
 COMP_CLASSES = [reg.CompA, reg.CompB, reg.CompC]
 PROC_CLASSES = [reg.ProcA, reg.ProcB]
@@ -71,8 +74,8 @@ def arg_kinds(h1, h2):
         ('plain', 'hello world', lambda: 'hello world'),
         ('obj', '${' + REG + 'OBJ1}', lambda: reg.OBJ1),
         ('obj-nested', '${' + REG + 'Namespace.inner}', lambda: reg.Namespace.inner),
-        ('res', '$res{sub.res2}', lambda: R2),
-        ('res1', '$res{res1}', lambda: R1),
+        ('res', '$res{sub.res2}', lambda: h2.last),       # evaluated after the load: the handle's cached resource
+        ('res1', '$res{res1}', lambda: h1.last),
         ('handle', '$handle{sub.res2}', lambda: h2),
         ('mid-marker', 'x${' + REG + 'OBJ1}', lambda: 'x${' + REG + 'OBJ1}'),
         ('mid-res', ' $res{res1}', lambda: ' $res{res1}'),
@@ -294,12 +297,12 @@ def h_args(sp, n_pos=2, n_kw=1, kinds=15, move=True):
     for i in range(npos):
         name, js, exp = K[sp.choose(len(K), 'pos%d' % i)]
         a_js.append(js)
-        a_exp.append(exp())
+        a_exp.append(exp)
         sp.cover('kind-' + name)
     for i in range(nkw):
         name, js, exp = K[sp.choose(len(K), 'kw%d' % i)]
         k_js['k%d' % i] = js
-        k_exp['k%d' % i] = exp()
+        k_exp['k%d' % i] = exp
         sp.cover('kind-' + name)
     if attach == 2 and any(isinstance(j, str) and (j.startswith('$res{') or j.startswith('$handle{')) for j in a_js + list(k_js.values())):
         sp.cover('res-through-composite-key')
@@ -323,6 +326,16 @@ def h_args(sp, n_pos=2, n_kw=1, kinds=15, move=True):
             import traceback
             sp.fail('load-raises', 'loading raised %r at %s' % (ex, traceback.extract_tb(ex.__traceback__)[-1][:3]),
                     attach=attach)
+        used_res = [h for h, marker in ((h1, '$res{res1}'), (h2, '$res{sub.res2}')) if marker in a_js + list(k_js.values())]
+        a_lazy, k_lazy = a_exp, k_exp
+        a_exp = [f() for f in a_lazy]
+        k_exp = {n: f() for n, f in k_lazy.items()}
+        for h in used_res:
+            # $res{} goes through the handle: loaded exactly once, cached, and it is the object every other access returns
+            sp.check(h.cached and h.loads == 1, 'res-through-handle-cache',
+                     'a resource referenced with $res{} left its handle with cached=%s after %d load(s)' % (h.cached, h.loads))
+            sp.check(h() is h.last and h.loads == 1, 'res-through-handle-cache', 'accessing the referenced handle again loaded anew')
+            sp.cover('res-cached')
         if target_proc:
             check_world(sp, w, handle, [(reg.ProcA, a_exp, k_exp)], [], True)
             p = w.get_processor(reg.ProcA)
@@ -336,17 +349,21 @@ def h_args(sp, n_pos=2, n_kw=1, kinds=15, move=True):
             # must now resolve against the tree that encloses it NOW
             root.clear()
             root_b, h1b, h2b = make_tree(attach)
-            h1b.value, h2b.value = ('resource', 1, 'other tree'), ('resource', 2, 'other tree')
+            h1b.value, h2b.value = 'res1 of the other tree', 'res2 of the other tree'
             attach_handle(root_b, handle, attach)
             handle.clear()
-            Kb = {name: exp for name, js, exp in arg_kinds(h1b, h2b)}
-            fix = {id(R1): h1b.value, id(R2): h2b.value, id(h1): h1b, id(h2): h2b}
-            a_exp_b = [fix.get(id(x), x) for x in a_exp]
-            k_exp_b = {n: fix.get(id(x), x) for n, x in k_exp.items()}
+            old_r1, old_r2 = h1.last, h2.last
             try:
                 wb = handle()
             except Exception as ex:     # noqa
                 sp.fail('load-raises', 'loading again after moving the handle raised %r' % (ex,), attach=attach)
+            fix = {id(h1): h1b, id(h2): h2b}
+            if old_r1 is not None:
+                fix[id(old_r1)] = h1b.last
+            if old_r2 is not None:
+                fix[id(old_r2)] = h2b.last
+            a_exp_b = [fix.get(id(x), x) for x in a_exp]
+            k_exp_b = {n: fix.get(id(x), x) for n, x in k_exp.items()}
             sp.check(wb is not w, 'reload-fresh', 'clear() + access did not load a fresh world')
             if target_proc:
                 check_world(sp, wb, handle, [(reg.ProcA, a_exp_b, k_exp_b)], [], True)
@@ -428,7 +445,7 @@ HARNESSES = {
     'args': dict(fn=h_args, nontrivial=['kind-obj', 'kind-res', 'kind-handle', 'kind-mid-marker', 'kind-plain', 'kind-list'],
                  required=['kind-int', 'kind-obj', 'kind-obj-nested', 'kind-res', 'kind-res1', 'kind-handle', 'kind-mid-marker',
                            'kind-plain', 'kind-list', 'kind-dict', 'kind-none', 'res-through-composite-key',
-                           'moved-and-reloaded']),
+                           'moved-and-reloaded', 'res-cached']),
     'strings': dict(kind='custom', fn=crosshair_conditions),
     'strings-replay': dict(fn=h_strings_replay),
 }
